@@ -85,6 +85,9 @@ mod libflavors {
         pub fn allow(e: &Env, user: Address) {
             AllowList::allow_user(e, &user);
         }
+        pub fn disallow(e: &Env, user: Address) {
+            AllowList::disallow_user(e, &user);
+        }
     }
     #[contractimpl(contracttrait)]
     impl FungibleToken for AllowLib {
@@ -106,6 +109,12 @@ mod libflavors {
     impl BlockLib {
         pub fn mint(e: &Env, to: Address, amount: i128) {
             Base::mint(e, &to, amount);
+        }
+        pub fn block(e: &Env, user: Address) {
+            BlockList::block_user(e, &user);
+        }
+        pub fn unblock(e: &Env, user: Address) {
+            BlockList::unblock_user(e, &user);
         }
     }
     #[contractimpl(contracttrait)]
@@ -318,6 +327,34 @@ impl Sim {
         let st = self.state();
         t.obs(&format!("{} {} now={} ev={} dem={}", tag, st, self.now, evs, dem));
     }
+    /// Closes the flavour's gate on account `i` (block / disallow / pause), observes every getter while it is
+    /// closed, and opens it again. To the model both steps are `advance n=0`: gating moves no token, so balances,
+    /// allowances and the supply must read exactly as before, and the supply must still be the sum of the balances.
+    fn gate_probe(&mut self, t: &mut Trace, i: usize) {
+        let e = &self.e;
+        let ai = v(e, self.u.a(i));
+        let a0 = v(e, self.u.a(0));
+        let (close, open, cargs, signer): (&str, &str, Vec<Val>, bool) = match self.flavor {
+            Flavor::BlockList => ("block_user", "unblock_user", vec![ai, a0], true),
+            Flavor::AllowList => ("disallow_user", "allow_user", vec![ai, a0], true),
+            Flavor::Pausable => ("pause", "unpause", vec![a0], true),
+            Flavor::BlockLib => ("block", "unblock", vec![ai], false),
+            Flavor::AllowLib => ("disallow", "allow", vec![ai], false),
+            _ => return,
+        };
+        let signers: Vec<&Address> = if signer { vec![self.u.a(0)] } else { vec![] };
+        for f in [close, open] {
+            let mut av = soroban_sdk::Vec::new(e);
+            for x in cargs.iter() {
+                av.push_back(*x);
+            }
+            let r = call(e, &self.tok, f, av, &signers);
+            assert!(r.is_some(), "gate call {} failed", f);
+            t.op("fungible advance n=0");
+            let st = self.state();
+            t.obs(&format!("ok {} now={} ev=- dem=-", st, self.now));
+        }
+    }
     fn advance(&mut self, t: &mut Trace, n: u32) {
         self.now += n;
         set_ledger(&self.e, self.now, self.min_temp, self.max_ttl);
@@ -446,6 +483,8 @@ fn scenario_lib_flavors(t: &mut Trace) {
         s.exec(t, "burn", &[3], 0, 0, &[3]);
         s.exec(t, "approve", &[1, 1], 30, 150, &[1]);
         s.exec(t, "burn_from", &[1, 1], 30, 0, &[1]);
+        s.gate_probe(t, 0);
+        s.gate_probe(t, 3);
         s.advance(t, 60);
         s.exec(t, "transfer_from", &[2, 0, 3], 1, 0, &[2]);
         s.exec(t, "mint", &[4], i128::MAX, 0, &[]);
@@ -544,6 +583,11 @@ fn main() {
                 if s.now as u64 + (n as u64) < 60_000 {
                     s.advance(&mut t, n);
                 }
+                continue;
+            }
+            if r < 15 && flavor != Flavor::Base {
+                let i = rng.below(N as u64) as usize;
+                s.gate_probe(&mut t, i);
                 continue;
             }
             let kind = if r < 30 {
